@@ -162,6 +162,78 @@ func init() {
 		sb.WriteString("def deleteObsoleteFilesCalls : List String := " + LeanStrList(CallSeq(FindFunc(st, "store", "deleteObsoleteFiles"))) + "\n")
 		sb.WriteString("def storeCloseCalls : List String := " + LeanStrList(CallSeq(FindFunc(st, "store", "close"))) + "\n")
 		sb.WriteString("def createFamilyCalls : List String := " + LeanStrList(CallSeq(FindFunc(st, "store", "CreateFamily"))) + "\n")
+		// CreateFamily's write-lock region: calls after `s.rwMutex.Lock()`; held to return iff the deferred Unlock
+		// follows the Lock directly and no explicit Unlock appears later; where the handle is published
+		// (`s.families[name] = family`) and whether s.families is looked up again under the write lock.
+		{
+			cf := FindFunc(st, "store", "CreateFamily")
+			if cf == nil {
+				return "", fmt.Errorf("store.CreateFamily not found")
+			}
+			seq := CallSeq(cf)
+			at := len(seq)
+			for i, c := range seq {
+				if c == "rwMutex.Lock" {
+					at = i
+					break
+				}
+			}
+			held := at+1 < len(seq) && seq[at+1] == "defer:rwMutex.Unlock"
+			under := []string{}
+			if at < len(seq) {
+				under = seq[at+1:]
+			}
+			for _, c := range under {
+				if c == "rwMutex.Unlock" || c == "rwMutex.Lock" {
+					held = false
+				}
+			}
+			sb.WriteString("def createFamilyUnderLockCalls : List String := " + LeanStrList(under) + "\n")
+			sb.WriteString("def createFamilyLockHeldToReturn : Bool := " + strconv.FormatBool(held) + "\n")
+			lockPos, existPos := token.NoPos, token.NoPos
+			ast.Inspect(cf.Body, func(n ast.Node) bool {
+				if ce, ok := n.(*ast.CallExpr); ok {
+					switch exprTail(ce.Fun) {
+					case "rwMutex.Lock":
+						if lockPos == token.NoPos {
+							lockPos = ce.Pos()
+						}
+					case "fileutil.Exist":
+						if existPos == token.NoPos {
+							existPos = ce.Pos()
+						}
+					}
+				}
+				return true
+			})
+			publishes, rechecks := 0, 0
+			lhs := map[ast.Expr]bool{}
+			ast.Inspect(cf.Body, func(n ast.Node) bool {
+				if as, ok := n.(*ast.AssignStmt); ok && as.Tok == token.ASSIGN {
+					for _, l := range as.Lhs {
+						if ix, ok := l.(*ast.IndexExpr); ok && exprTail(ix.X) == "s.families" {
+							lhs[ix] = true
+							if lockPos != token.NoPos && ix.Pos() > lockPos {
+								publishes++
+							} else {
+								publishes += 100 // a publication outside the write lock
+							}
+						}
+					}
+				}
+				return true
+			})
+			ast.Inspect(cf.Body, func(n ast.Node) bool {
+				if ix, ok := n.(*ast.IndexExpr); ok && exprTail(ix.X) == "s.families" && !lhs[ix] {
+					if lockPos != token.NoPos && ix.Pos() > lockPos && (existPos == token.NoPos || ix.Pos() < existPos) {
+						rechecks++
+					}
+				}
+				return true
+			})
+			sb.WriteString("def createFamilyPublishesAfterLock : Nat := " + strconv.Itoa(publishes) + "\n")
+			sb.WriteString("def createFamilyRechecksUnderLock : Bool := " + strconv.FormatBool(rechecks > 0) + "\n")
+		}
 		_, fm, err := ParseFile(repo, "kv/family.go")
 		if err != nil {
 			return "", err
@@ -391,4 +463,25 @@ func lastReturnExpr(fd *ast.FuncDecl) ast.Expr {
 		out = ce.Args[0]
 	}
 	return out
+}
+
+// exprTail renders a selector chain without its first receiver part for calls (`s.rwMutex.Lock` -> "rwMutex.Lock")
+// and fully for two-part selectors (`s.families` -> "s.families", `fileutil.Exist` -> "fileutil.Exist").
+func exprTail(e ast.Expr) string {
+	var parts []string
+	for {
+		switch x := e.(type) {
+		case *ast.SelectorExpr:
+			parts = append([]string{x.Sel.Name}, parts...)
+			e = x.X
+			continue
+		case *ast.Ident:
+			parts = append([]string{x.Name}, parts...)
+		}
+		break
+	}
+	if len(parts) > 2 {
+		parts = parts[len(parts)-2:]
+	}
+	return strings.Join(parts, ".")
 }
